@@ -23,6 +23,9 @@ pub fn shapes(rng: &mut Rng) -> Vec<(&'static str, String)> {
         ("binary-kept-across-iterations", "f = #['int, 'bin, 'bin] { | =[0, keep, b] => [keep, b] __binary_concat__ __binary_length__ | =[n, keep, b] => [[n, 1] __integer_subtract__, keep, [0x0102, n] __binary_append_one__] ^ }, 1".into()),
         ("tuple-rebuilt-per-iteration", "f = #[n: 'int, acc: ['int, 'int]] { | =[n: 0, acc: a] => a | =[n: n, acc: [p, q]] => [n: [n, 1] __integer_subtract__, acc: [q, [p, 1] __integer_add__]] ^ }, [n: {N}, acc: [0, 0]] f".into()),
         ("string-hole-per-iteration", "f = #['int, Str['bin]] { | =[0, s] => s | =[n, s] => [[n, 1] __integer_subtract__, \"x{\"y\"}\"] ^ }, [{N}, \"\"] f".into()),
+        // the per-iteration state update spreads a union-typed value (the spread's temporaries must be gone on every variant's path)
+        ("state-update-spreads-a-union-typed-value", "step = #([n: 'int] | [n: 'int, k: 'int]) { | =[n: n] => [n: n, k: 0] | =[n: n, k: k] => [n: n] }, loop = #[([n: 'int] | [n: 'int, k: 'int]), 'int] { | =[s, 0] => s | =[s, i] => [[...s, n: i] step, [i, 1] __integer_subtract__] ^ }, [[n: 0], {N}] loop".into()),
+        ("state-update-spreads-a-union-with-a-new-field", "step = #([n: 'int] | [n: 'int, k: 'int]) { | =[n: n] => [n: n, k: 0] | =[n: n, k: k] => [n: n] }, loop = #[([n: 'int] | [n: 'int, k: 'int]), 'int] { | =[s, 0] => s | =[s, i] => { t = [...s, z: i], [[n: t.n] step, [i, 1] __integer_subtract__] ^ } }, [[n: 0], {N}] loop".into()),
         // loops that iterate through `^~` (the idiom of std/iter's advance loops): each hop tail-calls the flowing nilary function
         ("loop-through-ripple-tail-calls", "count = #[#^ -> (#[] -> 'int), 'int] { =[self, n], #{ | n =0 => 0 | [&self, [n, 1] __integer_subtract__] self ^~ } }, t = [&count, {N}] count, t".into()),
         ("loop-through-ripple-tail-calls-capturing-a-binary", "count = #[#^ -> (#[] -> 'int), 'int, 'bin] { =[self, n, b], #{ | n =0 => b __binary_length__ | [&self, [n, 1] __integer_subtract__, [b, 0x01] __binary_concat__ [~, 0, 2] __binary_slice__] self ^~ } }, t = [&count, {N}, 0x0000] count, t".into()),
